@@ -359,14 +359,21 @@ def run(tier, seed):
     v = common.Verdict("C19", tier, seed)
     wd = common.workdir("C19")
     states = trans = 0
-    r = common.run_tlc("MC_Parameters", "MC_Parameters.cfg" if tier == "quick" else "MC_Parameters3.cfg", wd,
-                       timeout=3000, heap="16g")
+    r = common.run_tlc("MC_Parameters", "MC_Parameters.cfg", wd, timeout=3000, heap="16g")
     if r.violated:
         raise common.MachineryError("Parameters.tla violates its own invariants: %s" % r.violated)
     states += r.distinct
     trans += r.generated
     nb = 0
     recs = r.records
+    if tier == "thorough":
+        # deeper (3 free events + save + load) over a smaller alphabet
+        r3 = common.run_tlc("MC_Parameters", "MC_Parameters3.cfg", wd, timeout=3000, heap="16g")
+        if r3.violated:
+            raise common.MachineryError("Parameters.tla violates its own invariants: %s" % r3.violated)
+        states += r3.distinct
+        trans += r3.generated
+        recs = recs + r3.records
     rng = random.Random(seed)
     if len(recs) > 400000:
         recs = rng.sample(recs, 400000)
